@@ -393,6 +393,20 @@ impl RawDoc {
         }
     }
 
+    /// Verification hook: only the Kani compiler sets `cfg(kani)`. A [`RawDoc`] with the given
+    /// `delegates` and `threshold`, no payload, the current version and default visibility,
+    /// built without going through JSON.
+    #[cfg(kani)]
+    pub fn verif_raw(delegates: Vec<Did>, threshold: usize) -> Self {
+        Self {
+            version: IDENTITY_VERSION,
+            payload: BTreeMap::new(),
+            delegates,
+            threshold,
+            visibility: Visibility::default(),
+        }
+    }
+
     /// Get the version of the document.
     pub fn version(&self) -> &Version {
         &self.version
